@@ -224,11 +224,17 @@ dump_node(struct sbuf *o, const struct lyd_node *n, int depth, int opts)
                 if ((opts & DUMP_NEWFLAG) && (n->flags & LYD_NEW)) {
                     sb_str(o, "n");
                 }
+                if (n->schema->flags & LYS_CONFIG_R) {
+                    sb_str(o, "s");
+                }
             }
             if (!(opts & DUMP_NOMETA)) {
                 for (const struct lyd_meta *m = n->meta; m; m = m->next) {
                     const char *mv = lyd_get_meta_value(m);
 
+                    if (lyd_meta_is_internal(m)) {
+                        continue;
+                    }
                     sb_fmt(o, ":@%s:%s=", m->annotation->module->name, m->name);
                     sb_hex(o, mv, mv ? strlen(mv) : 0);
                 }
@@ -786,6 +792,17 @@ run_cmd(char *cmd, struct sbuf *o)
 
         for (struct lyd_node *n = T[slot_t(w[1])]; n; n = dfs_next(n)) {
             ++i;
+        }
+        sb_fmt(o, "%ld", i);
+    } else if (!strcmp(w[0], "nexpldflt")) {
+        /* number of explicit nodes whose value equals the schema default */
+        NEED(2);
+        long i = 0;
+
+        for (struct lyd_node *n = T[slot_t(w[1])]; n; n = dfs_next(n)) {
+            if (n->schema && !(n->flags & LYD_DEFAULT) && (n->schema->nodetype & LYD_NODE_TERM) && lyd_is_default(n)) {
+                ++i;
+            }
         }
         sb_fmt(o, "%ld", i);
     } else if (!strcmp(w[0], "cmp")) {
